@@ -262,7 +262,7 @@ func init() {
 		mutant{"unsubscribe-closes-after-unlock", "pkg/engine/events.go", "\teb.mu.Lock()\n\tif _, ok := eb.subscribers[ch]; ok {\n\t\tdelete(eb.subscribers, ch)\n\t\tclose(ch)\n\t}\n\teb.mu.Unlock()", "\teb.mu.Lock()\n\t_, ok := eb.subscribers[ch]\n\tif ok {\n\t\tdelete(eb.subscribers, ch)\n\t}\n\teb.mu.Unlock()\n\tif ok {\n\t\tclose(ch)\n\t}", "LCK-7", "EventBus.Unsubscribe:close#1"},
 	)
 	addMutants("C13",
-		mutant{"refine-not-registered-as-in-flight", "pkg/core/hnsw/optimizer.go", "\to.index.activeMu.RLock()\n\tdefer o.index.activeMu.RUnlock()\n\tif o.index.isClosed() {\n\t\treturn false\n\t}\n", "", "LCK-5", "guard:hnsw.Index.activeMu@hnsw.(*GraphOptimizer).Refine$Refine$1"},
+		mutant{"refine-not-registered-as-in-flight", "pkg/core/hnsw/optimizer.go", "\t// turbo refine) faults on unmapped memory.\n\to.index.activeMu.RLock()\n\tdefer o.index.activeMu.RUnlock()\n\tif o.index.isClosed() {\n\t\treturn false\n\t}\n", "\t// turbo refine) faults on unmapped memory.\n", "LCK-5", "guard:hnsw.Index.activeMu@hnsw.(*GraphOptimizer).Refine$Refine$1"},
 		mutant{"arena-closed-before-compactor-stopped", "pkg/core/hnsw/hnsw_index.go", "\t\tslog.Info(\"[HNSW] Waiting for compactor to stop\")\n\t\th.arena.WaitForStopped()\n", "\t\tslog.Info(\"[HNSW] Not waiting for the compactor\")\n", "ORD-8b", "Index.Close:WaitForStopped<arena.Close"},
 	)
 	addMutants("C01",
@@ -289,5 +289,87 @@ func init() {
 	)
 	addMutants("C04",
 		mutant{"array-grown-without-shard-locks", "pkg/core/hnsw/hnsw_index.go", "\t\t\tfor i := range h.shardsMu {\n\t\t\t\th.shardsMu[i].Lock()\n\t\t\t}\n\t\t\tdefer func() {\n\t\t\t\tfor i := range h.shardsMu {\n\t\t\t\t\th.shardsMu[i].Unlock()\n\t\t\t\t}\n\t\t\t}()\n\t\t\tcurrNodes = h.getNodes()\n", "", "LCK-8", "Index.growNodes:publish#1"},
+	)
+	addMutants("C06",
+		mutant{"duplicate-test-under-earlier-read-lock", "pkg/core/hnsw/hnsw_index.go", "\tif _, exists := h.externalToInternalID[id]; exists {\n\t\th.metaMu.Unlock()\n\t\treturn 0, fmt.Errorf(\"ID '%s' already exists\", id)\n\t}\n\n\t// 1. Determine dimension from the incoming vector", "\t// 1. Determine dimension from the incoming vector", "GRD-dupcheck", "Index.addActive:register#1"},
+		mutant{"replay-deletes-before-resolving-id", "pkg/engine/recovery.go", "\t\t\tif isHnsw {\n\t\t\t\tif internalID, found := hnswIdx.GetInternalID(id); found {\n\t\t\t\t\tidx.Delete(id)\n\t\t\t\t\te.DB.DeleteMetadata(name, internalID)\n\t\t\t\t}\n\t\t\t}", "\t\t\tidx.Delete(id)\n\t\t\tif isHnsw {\n\t\t\t\tif internalID, found := hnswIdx.GetInternalID(id); found {\n\t\t\t\t\te.DB.DeleteMetadata(name, internalID)\n\t\t\t\t}\n\t\t\t}", "ORD-del", "Engine.replayAOF:delete#1:id-resolved-first"},
+	)
+	addMutants("C04",
+		mutant{"duplicate-test-under-earlier-read-lock", "pkg/core/hnsw/hnsw_index.go", "\tif _, exists := h.externalToInternalID[id]; exists {\n\t\th.metaMu.Unlock()\n\t\treturn 0, fmt.Errorf(\"ID '%s' already exists\", id)\n\t}\n\n\t// 1. Determine dimension from the incoming vector", "\t// 1. Determine dimension from the incoming vector", "GRD-dupcheck", "Index.addActive:register#1"},
+	)
+	addMutants("C03",
+		mutant{"resync-starts-after-failed-frame", "pkg/engine/recovery.go", "\t\t\tslog.Warn(\"AOF Corruption Detected\", \"error\", err, \"offset\", validOffset)\n\t\t\tresyncOffset, found := resyncAOF(file, validOffset)", "\t\t\tslog.Warn(\"AOF Corruption Detected\", \"error\", err, \"offset\", validOffset)\n\t\t\tresyncOffset, found := resyncAOF(file, validOffset+int64(frameSize)-1)", "GRD-scan", "Engine.replayAOF:resync-start#1"},
+	)
+	addMutants("C09",
+		mutant{"counted-means-positive-length", "pkg/core/core.go", "\t\t\tif _, had := stats.DocLengths[nodeID]; had {\n\t\t\t\tstats.TotalDocLength -= int64(stats.DocLengths[nodeID])", "\t\t\tif docLen := stats.DocLengths[nodeID]; docLen > 0 {\n\t\t\t\tstats.TotalDocLength -= int64(docLen)", "GRD-stats", "DB.DeleteMetadata:delete-only-if-counted"},
+	)
+	addMutants("C11",
+		mutant{"backward-frontier-ignores-query-time", "pkg/engine/pathfinding.go", "\t\t\t\t\tedges, found := e.VGetIncomingEdges(indexName, curr, rel, atTime)\n\t\t\t\t\tif found {\n\t\t\t\t\t\tfor _, edge := range edges {\n\t\t\t\t\t\t\tneighbor := edge.TargetID", "\t\t\t\t\tsources, found := e.VGetIncoming(indexName, curr, rel)\n\t\t\t\t\tif found {\n\t\t\t\t\t\tfor _, neighbor := range sources {", "GRD-time", "Engine.FindPath:neighbourhood-read#2"},
+	)
+	addMutants("C12",
+		mutant{"repair-through-merged-both-view", "pkg/engine/recovery.go", "\t\t\t\tincoming := e.DB.GetAllRelations(graphID, \"in\")", "\t\t\t\tincoming := e.DB.GetAllRelations(graphID, \"both\")", "SIB-4", "replayAOF:VDEL-repair-directions"},
+	)
+	addMutants("C15",
+		mutant{"decay-walks-vector-hits-only", "pkg/engine/ops.go", "\t\tfor docID, score := range fusedScores {\n\t\t\t// Retrieve metadata using the internal ID", "\t\tfor _, res := range vectorResults {\n\t\t\tdocID := res.DocID\n\t\t\tscore := fusedScores[docID]\n\t\t\t// Retrieve metadata using the internal ID", "GRD-decayall", "searchWithFusion:decay-store#1"},
+	)
+	addMutants("C15",
+		mutant{"access-count-stored-as-int", "pkg/engine/ops.go", "\t\tmeta[\"_access_count\"] = newCount", "\t\tmeta[\"_access_count\"] = int(newCount)", "SIB-metatypes", "key:_access_count:writer#1:Engine.VReinforce"},
+	)
+	addMutants("C17",
+		mutant{"prompt-decoded-into-typed-struct", "pkg/proxy/proxy.go", "\tvar data map[string]interface{}\n\tif err := json.Unmarshal(jsonBody, &data); err != nil {\n\t\treturn \"\"\n\t}\n\tif v, ok := data[\"prompt\"].(string); ok {\n\t\treturn v\n\t}", "\tvar typed chatRequest\n\tif err := json.Unmarshal(jsonBody, &typed); err != nil {\n\t\treturn \"\"\n\t}\n\tvar data map[string]interface{}\n\t_ = json.Unmarshal(jsonBody, &data)\n\tif v, ok := data[\"prompt\"].(string); ok {\n\t\treturn v\n\t}", "GRD-fw", "extractPrompt:decode#1:shape-tolerant"},
+	)
+}
+
+func init() {
+	addMutants("C14",
+		mutant{"kvset-outside-the-operation-gate", "pkg/engine/ops.go", "func (e *Engine) KVSet(key string, value []byte) error {\n\tdefer e.writeGate.leave(e.writeGate.enter())\n", "func (e *Engine) KVSet(key string, value []byte) error {\n", "ORD-9", "Engine.KVSet:journal-inside-gate"},
+		mutant{"kvset-leaves-gate-before-apply", "pkg/engine/ops.go", "func (e *Engine) KVSet(key string, value []byte) error {\n\tdefer e.writeGate.leave(e.writeGate.enter())\n\n\t// 1. AOF\n\tcmd := persistence.FormatCommand(\"SET\", []byte(key), value)\n\tif err := e.AOF.Write(cmd); err != nil {\n", "func (e *Engine) KVSet(key string, value []byte) error {\n\t// 1. AOF\n\tcmd := persistence.FormatCommand(\"SET\", []byte(key), value)\n\ttok := e.writeGate.enter()\n\terr := e.AOF.Write(cmd)\n\te.writeGate.leave(tok)\n\tif err != nil {\n", "ORD-9", "Engine.KVSet:journal-inside-gate"},
+		mutant{"vunlink-gate-entered-after-journal", "pkg/engine/graph.go", "func (e *Engine) VUnlink(indexName, sourceID, targetID, relationType, inverseRelationType string, hardDelete bool) error {\n\tdefer e.writeGate.leave(e.writeGate.enter())\n", "func (e *Engine) VUnlink(indexName, sourceID, targetID, relationType, inverseRelationType string, hardDelete bool) error {\n\tdefer func() { e.writeGate.leave(e.writeGate.enter()) }()\n", "ORD-9", "Engine.VUnlink:journal-inside-gate"},
+		mutant{"snapshot-does-not-drain", "pkg/engine/recovery.go", "\t// their operations to apply them, so that the snapshot below contains them.\n\te.writeGate.drain()\n", "\t// their operations to apply them, so that the snapshot below contains them.\n", "ORD-9", "Engine.saveSnapshotLocked:drain-after-BeginSnapshotMode#1"},
+		mutant{"rewrite-drains-before-snapshot-mode", "pkg/engine/recovery.go", "\tif err := e.AOF.BeginSnapshotMode(); err != nil {\n\t\twriter.Close()\n\t\tos.Remove(tempAof)\n\t\treturn fmt.Errorf(\"rewrite: begin snapshot mode: %w\", err)\n\t}\n\t// Commands journaled before this point are in the log that is about to be\n\t// replaced: wait for their operations to apply them, so that the state\n\t// dumped below contains them.\n\te.writeGate.drain()\n", "\te.writeGate.drain()\n\tif err := e.AOF.BeginSnapshotMode(); err != nil {\n\t\twriter.Close()\n\t\tos.Remove(tempAof)\n\t\treturn fmt.Errorf(\"rewrite: begin snapshot mode: %w\", err)\n\t}\n", "ORD-9", "Engine.RewriteAOF:drain-after-BeginSnapshotMode#1"},
+		mutant{"rewrite-drains-after-reading-kv", "pkg/engine/recovery.go", "\t// dumped below contains them.\n\te.writeGate.drain()\n", "\t// dumped below contains them.\n\tdefer e.writeGate.drain()\n", "ORD-9", "Engine.RewriteAOF:drain-after-BeginSnapshotMode#1"},
+		mutant{"drain-does-not-wait", "pkg/engine/opgate.go", "\tif wait != nil {\n\t\t<-wait\n\t}\n", "\t_ = wait\n", "ORD-9", "opGate.drain:blocks"},
+	)
+}
+
+// behaviour-preserving variants of the ORD-9 constructs: no rule may fire
+func init() {
+	addMutants("C14",
+		mutant{"benign:kvset-journal-and-apply-in-helper", "pkg/engine/ops.go", "func (e *Engine) KVSet(key string, value []byte) error {\n\tdefer e.writeGate.leave(e.writeGate.enter())\n\n", "func (e *Engine) KVSet(key string, value []byte) error {\n\tdefer e.writeGate.leave(e.writeGate.enter())\n\treturn e.kvSet(key, value)\n}\n\nfunc (e *Engine) kvSet(key string, value []byte) error {\n", "silent", ""},
+		mutant{"benign:explicit-leave-after-apply", "pkg/engine/ops.go", "func (e *Engine) KVSet(key string, value []byte) error {\n\tdefer e.writeGate.leave(e.writeGate.enter())\n\n\t// 1. AOF\n\tcmd := persistence.FormatCommand(\"SET\", []byte(key), value)\n\tif err := e.AOF.Write(cmd); err != nil {\n\t\treturn fmt.Errorf(\"persistence error (AOF write failed): %w\", err)\n\t}\n\n\t// 2. Memory\n\te.DB.GetKVStore().Set(key, value)\n", "func (e *Engine) KVSet(key string, value []byte) error {\n\ttok := e.writeGate.enter()\n\t// 1. AOF\n\tcmd := persistence.FormatCommand(\"SET\", []byte(key), value)\n\tif err := e.AOF.Write(cmd); err != nil {\n\t\te.writeGate.leave(tok)\n\t\treturn fmt.Errorf(\"persistence error (AOF write failed): %w\", err)\n\t}\n\n\t// 2. Memory\n\te.DB.GetKVStore().Set(key, value)\n\te.writeGate.leave(tok)\n", "silent", ""},
+		mutant{"benign:extra-drain-before-snapshot-mode", "pkg/engine/recovery.go", "\tif err := e.AOF.BeginSnapshotMode(); err != nil {\n\t\twriter.Close()", "\te.writeGate.drain()\n\tif err := e.AOF.BeginSnapshotMode(); err != nil {\n\t\twriter.Close()", "silent", ""},
+		mutant{"benign:drain-waits-on-condition-variable", "pkg/engine/opgate.go", "\tvar wait chan struct{}\n\tif g.active[old&1] > 0 {\n\t\twait = make(chan struct{})\n\t\tg.idle = wait\n\t}\n\tg.mu.Unlock()\n\tif wait != nil {\n\t\t<-wait\n\t}\n", "\tc := sync.NewCond(&g.mu)\n\tfor g.active[old&1] > 0 {\n\t\tgo func() { g.mu.Lock(); c.Broadcast(); g.mu.Unlock() }()\n\t\tc.Wait()\n\t}\n\tg.mu.Unlock()\n", "silent", ""},
+	)
+}
+
+// behaviour-preserving variants (Rule "silent"): realistic refactorings that keep the property; no rule may fire.
+func init() {
+	addMutants("C20",
+		mutant{"benign:budget-test-rearranged", "pkg/rag/adaptive_retriever.go", "\t\t\tif totalTokens+chunkTokens > budget {\n\t\t\t\tbreak // Budget exhausted\n\t\t\t}\n\n\t\t\tselected = append(selected, chunk.Chunk)\n\t\t\ttotalTokens += chunkTokens\n", "\t\t\tif next := totalTokens + chunkTokens; next <= budget {\n\t\t\t\tselected = append(selected, chunk.Chunk)\n\t\t\t\ttotalTokens = next\n\t\t\t} else {\n\t\t\t\tbreak // Budget exhausted\n\t\t\t}\n", "silent", ""},
+	)
+	addMutants("C06",
+		mutant{"benign:deleted-test-as-early-continue", "pkg/core/hnsw/hnsw_index.go", "\t\t\t\t// Add to results ONLY if not deleted\n\t\t\t\tif !neighborNode.Deleted.Load() {\n\t\t\t\t\tresults.Push(neighborCandidate)\n\n\t\t\t\t\tif results.Len() > ef {\n\t\t\t\t\t\tresults.Pop() // Remove the farthest\n\t\t\t\t\t}\n\t\t\t\t}\n", "\t\t\t\t// Add to results ONLY if not deleted\n\t\t\t\tif neighborNode.Deleted.Load() {\n\t\t\t\t\tcontinue\n\t\t\t\t}\n\t\t\t\tresults.Push(neighborCandidate)\n\t\t\t\tif results.Len() > ef {\n\t\t\t\t\tresults.Pop() // Remove the farthest\n\t\t\t\t}\n", "silent", ""},
+		mutant{"benign:entrypoint-admission-as-one-flag", "pkg/core/hnsw/hnsw_index.go", "\tif isEpValid && !entryNode.Deleted.Load() {\n\t\tresults.Push(ep)\n\t}\n", "\tif entryNode.Deleted.Load() {\n\t\tisEpValid = false\n\t}\n\tif isEpValid {\n\t\tresults.Push(ep)\n\t}\n", "silent", ""},
+	)
+	addMutants("C02",
+		mutant{"benign:snapshot-rename-error-named", "pkg/engine/recovery.go", "\tif err := os.Rename(tempSnap, e.snapPath); err != nil {\n\t\tos.Remove(tempSnap) // Clean up temp file on error\n\t\treturn fmt.Errorf(\"failed to rename snapshot file: %w\", err)\n\t}\n", "\trenameErr := os.Rename(tempSnap, e.snapPath)\n\tif renameErr != nil {\n\t\tos.Remove(tempSnap) // Clean up temp file on error\n\t\treturn fmt.Errorf(\"failed to rename snapshot file: %w\", renameErr)\n\t}\n", "silent", ""},
+	)
+	addMutants("C05",
+		mutant{"benign:kvset-rejects-empty-key-before-journal", "pkg/engine/ops.go", "\t// 1. AOF\n\tcmd := persistence.FormatCommand(\"SET\", []byte(key), value)\n", "\tif key == \"\" {\n\t\treturn fmt.Errorf(\"empty key\")\n\t}\n\t// 1. AOF\n\tcmd := persistence.FormatCommand(\"SET\", []byte(key), value)\n", "silent", ""},
+	)
+	addMutants("C01",
+		mutant{"benign:kvset-journal-and-apply-in-helper", "pkg/engine/ops.go", "func (e *Engine) KVSet(key string, value []byte) error {\n\tdefer e.writeGate.leave(e.writeGate.enter())\n\n", "func (e *Engine) KVSet(key string, value []byte) error {\n\tdefer e.writeGate.leave(e.writeGate.enter())\n\treturn e.kvSet(key, value)\n}\n\nfunc (e *Engine) kvSet(key string, value []byte) error {\n", "silent", ""},
+	)
+	addMutants("C13",
+		mutant{"benign:eventbus-unsubscribe-deferred-unlock", "pkg/engine/events.go", "\teb.mu.Lock()\n\tif _, ok := eb.subscribers[ch]; ok {\n\t\tdelete(eb.subscribers, ch)\n\t\tclose(ch)\n\t}\n\teb.mu.Unlock()", "\teb.mu.Lock()\n\tdefer eb.mu.Unlock()\n\tif _, ok := eb.subscribers[ch]; ok {\n\t\tdelete(eb.subscribers, ch)\n\t\tclose(ch)\n\t}", "silent", ""},
+	)
+}
+
+func init() {
+	addMutants("C10",
+		mutant{"benign:reverse-soft-delete-as-early-continue", "pkg/core/graph.go", "\t\t\t\tfor i := range inList {\n\t\t\t\t\tif inList[i].SourceID == sourceID && inList[i].DeletedAt == 0 {\n\t\t\t\t\t\tinList[i].DeletedAt = timestamp\n\t\t\t\t\t\tbreak\n\t\t\t\t\t}\n\t\t\t\t}\n", "\t\t\t\tfor i := range inList {\n\t\t\t\t\trev := &inList[i]\n\t\t\t\t\tif rev.DeletedAt != 0 || sourceID != rev.SourceID {\n\t\t\t\t\t\tcontinue\n\t\t\t\t\t}\n\t\t\t\t\trev.DeletedAt = timestamp\n\t\t\t\t\tbreak\n\t\t\t\t}\n", "silent", ""},
+		mutant{"benign:hard-delete-split-renamed-and-inverted", "pkg/core/graph.go", "\t\t\tif hardDelete {\n\t\t\t\tnewIn := inList[:0]\n\t\t\t\tfor _, edge := range inList {\n\t\t\t\t\tif edge.SourceID != sourceID {\n\t\t\t\t\t\tnewIn = append(newIn, edge)\n\t\t\t\t\t}\n\t\t\t\t}\n\t\t\t\ttargetNode.InEdges[relationType] = newIn\n\t\t\t} else {", "\t\t\tif soft := !hardDelete; !soft {\n\t\t\t\tnewIn := inList[:0]\n\t\t\t\tfor _, edge := range inList {\n\t\t\t\t\tif edge.SourceID == sourceID {\n\t\t\t\t\t\tcontinue\n\t\t\t\t\t}\n\t\t\t\t\tnewIn = append(newIn, edge)\n\t\t\t\t}\n\t\t\t\ttargetNode.InEdges[relationType] = newIn\n\t\t\t} else {", "silent", ""},
+		mutant{"benign:as-of-filter-as-one-expression", "pkg/core/graph.go", "\tif createdAt <= queryTime {\n\t\tif deletedAt == 0 || deletedAt > queryTime {\n\t\t\treturn true\n\t\t}\n\t}\n\treturn false\n}", "\treturn queryTime >= createdAt && (deletedAt == 0 || queryTime < deletedAt)\n}", "silent", ""},
+		mutant{"benign:addedge-lookup-with-found-flag-only", "pkg/core/graph.go", "\tfor i := range inList {\n\t\tif inList[i].SourceID == sourceID && inList[i].DeletedAt == 0 {\n\t\t\tfoundIn = true\n\t\t\tbreak\n\t\t}\n\t}\n", "\tfor i := range inList {\n\t\tif inList[i].SourceID != sourceID {\n\t\t\tcontinue\n\t\t}\n\t\tif inList[i].DeletedAt == 0 {\n\t\t\tfoundIn = true\n\t\t\tbreak\n\t\t}\n\t}\n", "silent", ""},
 	)
 }
